@@ -19,7 +19,8 @@
    Oracle inputs (validated, never predicted): the layout packTracts chose and the servers allocateTS
    picked (C13 / C17 are about those), the replica order a read tries.
 
-   Three switches describe proposed repairs; run_case = the code as it is (all false):
+   Three switches describe the repairs committed in /repo (defd77a, 5c76c3c, 05b6487); run_case = the
+   code as it is = all three on; no_fix = the code before them:
      fx6  : CommitRSChunkCommand.apply refuses unless stored version + 1 = NewVersion
      fx13 : PackTracts sources are restricted to the replicas whose stamp was collected
      fx14 : the client refuses a tract without hosts / with an RS pointer (ErrReadOnlyStorageClass) *)
@@ -1172,7 +1173,8 @@ Definition step_fx (fx : fixes) (st0 : state) (ev : list Z) : state * list Z :=
       else (st, [-1])
   end.
 
-Definition step := step_fx no_fix.
+(* /repo HEAD carries the three repairs (defd77a, 5c76c3c, 05b6487): the code as it is = all_fix *)
+Definition step := step_fx all_fix.
 
 Fixpoint run_fx (fx : fixes) (st : state) (evs : list (list Z)) : list (list Z) :=
   match evs with
@@ -1186,7 +1188,7 @@ Fixpoint run_state_fx (fx : fixes) (st : state) (evs : list (list Z)) : state :=
   | ev :: r => run_state_fx fx (fst (step_fx fx st ev)) r
   end.
 
-Definition run_case (ops : list (list Z)) : list (list Z) := run_fx no_fix init_state ops.
+Definition run_case (ops : list (list Z)) : list (list Z) := run_fx all_fix init_state ops.
 
-(* the same events on the tree with the three proposed repairs applied *)
-Definition run_case_fixed (ops : list (list Z)) : list (list Z) := run_fx all_fix init_state ops.
+(* the code before the three repairs (the REFUTED theorems are about these switches) *)
+Definition run_case_unrepaired (ops : list (list Z)) : list (list Z) := run_fx no_fix init_state ops.
